@@ -63,6 +63,7 @@ func dialWSConn(ctx context.Context, logger protocol.Logger, uri *url.URL, hands
 		p:             p,
 		conn:          conn,
 		writeCh:       make(chan []byte, o.WriteQueueSize),
+		packetCh:      make(chan *protocol.Packet, o.ReadQueueSize),
 		dopts:         *o,
 		closeCh:       make(chan struct{}),
 		closeCallback: newCloseCallback(),
@@ -162,8 +163,6 @@ func (conn *wsConn) write(data []byte) error {
 func (conn *wsConn) OnPacket(fn func(*protocol.Packet, error)) {
 	// OnPacket can only invoke once
 	conn.onPacketOnce.Do(func() {
-		conn.packetCh = make(chan *protocol.Packet, conn.dopts.ReadQueueSize)
-
 		go func() {
 			// packetCh and writeCh are never closed: the reader and callers of
 			// Write may still be sending on them when the conn is closed (a
